@@ -5,7 +5,10 @@
      c_cls    class of the escaping exception as an index of the IR's class table (None: returned / hung),
      c_sites  the raise sites of the IR that can explain the exception: sites of the observed class in the functions
               on the traceback (deepest first; frames below a summarised BOUNDARY function are cut off),
-     c_selfref the input (argv / text / object / env / files) contains a self-referential YAML alias (&x ... *x).
+     c_selfref the input (argv / text / object / env / files) contains a self-referential YAML alias (&x ... *x),
+     c_deep   the input holds a value nested more than 150 levels deep (brackets/braces in a text, lists in an object).
+   The RecursionError sites of finding 18 (deep nesting) count as that finding only for inputs that ARE deeply nested:
+   the same sites reached by a shallow input (e.g. a cycle check that recurses on its own) are inside the guard.
    Model agreement (the tie): SOME candidate site is a member of the escape set the analysis computes for that entry
    point and mode (the deepest such site is "the" site), it has the observed class, and the class reads as the
    observation.
@@ -15,7 +18,7 @@
 From JV Require Import Lib.Base Model.C03ExnFlow Spec.C03ChannelSpec Gen.C03ExnIR Model.C03Instance.
 Open Scope N_scope.
 
-Record case := { c_x : bool; c_entry : N; c_obs : observation; c_cls : option N; c_sites : list N; c_selfref : bool }.
+Record case := { c_x : bool; c_entry : N; c_obs : observation; c_cls : option N; c_sites : list N; c_selfref : bool; c_deep : bool }.
 
 Definition norm_obs (o : observation) : observation :=
   match o with
@@ -51,7 +54,7 @@ Definition judge1 (c : case) : verdict :=
       match find (fun i => mem i (escape_set x (c_entry c)) && N.eqb (site_class ir_prog i) cl) (c_sites c) with
       | Some i =>
           {| v_model := is_entry (c_entry c) && obs_eqb (obs_of_class cl) (norm_obs (c_obs c));
-             v_class := finding_class x i;
+             v_class := (let k := finding_class x i in if N.eqb k 18 && negb (c_deep c) then 0 else k);
              v_spec := channel_ok x (c_obs c) |}
       | None =>
           {| v_model := false; v_class := 0; v_spec := channel_ok x (c_obs c) |}
